@@ -103,6 +103,9 @@ def exc_getattr(ip, exc, attr):
         return exc.args
     if attr in ("__context__", "__cause__", "__traceback__"):
         return None
+    r = ip.ctx.unit.model_getattr(ip, exc, attr)
+    if r is not NotImplemented:
+        return r
     raise Unsupported(f"exception attribute {attr}")
 
 
